@@ -630,6 +630,17 @@ func (c *aeCtx) proveStage(fn *ssa.Function) {
 	}
 	sort.Strings(si.sub)
 	c.stages[fn] = si
+	if os.Getenv("GVDEBUG") == "terms" {
+		var tk []string
+		for k, ti := range sub.terms {
+			tk = append(tk, fmt.Sprintf("%s:%d base=%v pool=%v", k, ti.kind, ti.base, sub.pools[k]))
+		}
+		sort.Strings(tk)
+		fmt.Fprintf(os.Stderr, "STAGE %s ok=%v loops=%v oof=%q findings=%d loopIssues=%d worlds=%v\n", c.p.FnKey(fn), ok, res.loopsOK, res.oof, len(res.findings), len(res.loopIssues), res.worlds)
+		for _, k := range tk {
+			fmt.Fprintf(os.Stderr, "   sterm %s\n", k)
+		}
+	}
 }
 
 // domainAllows: can a value at pool position v occur given the field's construction-site domain?
